@@ -21,6 +21,26 @@ PRELUDE = r'''
 (defn nest-form [d head leaf] (var t leaf) (repeat d (set t (tuple head t))) t)
 (defn proto-chain [d] (var t @{:base 1}) (repeat d (set t (table/setproto @{} t))) t)
 (defn sproto-chain [d] (var t {:base 1}) (repeat d (set t (struct/with-proto t :x 1))) t)
+(defn corrupt [& msg] (eprint "CORRUPT " ;msg) (os/exit 3))
+(defn churn [] (var keep nil) (repeat 30000 (set keep [(array/new 3) @{:a 1} (string "x" (length "y"))])) nil)
+(defn walk-mixed [x d]
+  # check every level of (nest-mixed d) from the outside in
+  (var t x) (var i (- d 1))
+  (while (>= i 0)
+    (def expect (case (% i 4) 0 :tuple 1 :array 2 :struct :table))
+    (unless (= (type t) expect) (corrupt "level " i ": type " (type t) ", built as " expect))
+    (unless (= 1 (length t)) (corrupt "level " i ": length " (length t)))
+    (set t (if (or (= expect :tuple) (= expect :array)) (in t 0) (in t :k)))
+    (-- i))
+  (unless (= t [1]) (corrupt "leaf is " (type t))))
+(defn walk-chain [x d kind key]
+  (var t x) (var i d)
+  (while (> i 0)
+    (unless (= (type t) kind) (corrupt "level " i ": type " (type t)))
+    (unless (= 1 (length t)) (corrupt "level " i ": length " (length t)))
+    (set t (in t key))
+    (-- i))
+  (unless (and (= (type t) kind) (= 0 (length t))) (corrupt "innermost is " (type t) " of length " (length t))))
 (defmacro run-case [& body]
   ~(do
      (def r (try (do ,;body :ok) ([e f] (string "CAUGHT " (string/slice (string e) 0 (min 80 (length (string e))))))))
@@ -73,6 +93,11 @@ CONSUMERS = {
     "unmarshal-handbuilt-deep-tuples": '(def b @"") (repeat D (buffer/push b "\\xD2\\x01\\x00")) (buffer/push b "\\xC9") (unmarshal b)',
     "gc-deep-arrays": "(def x (nest-array D)) (gccollect) (length x)",
     "gc-deep-linked-tables": "(def x (nest-table D)) (gccollect) (gccollect) (length x)",
+    "gc-deep-mixed-walk": "(def x (nest-mixed D)) (gccollect) (churn) (gccollect) (walk-mixed x D)",
+    "gc-deep-arrays-walk": "(def x (nest-array D)) (gccollect) (churn) (gccollect) (walk-chain x D :array 0)",
+    "gc-deep-tables-walk": "(def x (nest-table D)) (gccollect) (churn) (gccollect) (walk-chain x D :table :a)",
+    "gc-deep-structs-walk": "(def x (nest-struct D)) (gccollect) (churn) (gccollect) (walk-chain x D :struct :a)",
+    "gc-deep-tuples-walk": "(def x (nest-tuple D)) (gccollect) (churn) (gccollect) (walk-chain x D :tuple 0)",
     "gc-deep-closures": "(var f (fn [] 0)) (repeat (min D 200000) (let [g f] (set f (fn [] (g))))) (gccollect) (type f)",
     "proto-chain-lookup": "(def t (proto-chain D)) (get t :base) (get t :missing)",
     "proto-chain-flatten": "(table/proto-flatten (proto-chain D))",
@@ -136,6 +161,9 @@ def run(ctx):
             return
         if "out of memory" in err.lower() or "failed to allocate" in err.lower():
             ctx.count("out_of_memory_inconclusive")
+            return
+        if "CORRUPT " in err:
+            ctx.violation("corrupt:%s" % name, "%s at depth %d: a reachable nested value changed after collection: %s" % (name, dep, err[err.index("CORRUPT "):][:200]), files)
             return
         if res.sig is not None:
             signame = signal.Signals(res.sig).name
